@@ -19,6 +19,14 @@ async def gate(label, prio=0):
         await g(label, None, prio)
 
 
+LOG: list = []  # shared call log (reset by harnesses per execution)
+
+
+def reset_log():
+    LOG.clear()
+    FakeConnector.instances.clear()
+
+
 def log_event(ev):
     loop = asyncio.get_event_loop()
     lg = getattr(loop, "log", None)
@@ -43,7 +51,7 @@ class FakeConnector(Connector):
         self.gated = gated
         self.usage = usage
         self.fail_deploy = fail_deploy
-        self.calls = calllog if calllog is not None else []
+        self.calls = calllog if calllog is not None else LOG
         self.deployed = False
         self.extra = kw
         FakeConnector.instances.append(self)
@@ -68,7 +76,7 @@ class FakeConnector(Connector):
     async def run(self, location, command, environment=None, workdir=None, stdin=None, stdout=None, stderr=None,
                   capture_output=False, timeout=None, job_name=None):
         cmd = " ".join(command)
-        self.calls.append(("run", self.deployment_name, location.name, cmd))
+        self.calls.append(("run", self.deployment_name, getattr(location, "name", None), cmd, self.instance_id))
         if self.gated:
             await gate(f"run:{self.deployment_name}:{cmd[:16]}")
         m = re.match(r'test -e "(.*?)" && readlink -f "(.*?)"', cmd) or re.match(r"test -e '?(.*?)'? && readlink -f '?(.*?)'?$", cmd)
@@ -132,7 +140,7 @@ class FakeWrapper(ConnectorWrapper):
         self.locs_cfg = locations or {"w0": {"cores": 1, "memory": 1024, "storage": {"/": 1024.0}}}
         self.gated = gated
         self.fail_deploy = fail_deploy
-        self.calls = calllog if calllog is not None else []
+        self.calls = calllog if calllog is not None else LOG
         self.binds = binds or {}
         FakeConnector.instances.append(self)
         self.instance_id = len(FakeConnector.instances)
